@@ -45,6 +45,7 @@ type Node struct {
 	failMsg  string
 	killReq  bool // node asked to be killed (cmn.Kill)
 	killSeen bool
+	fveRejected string // the FaultValidatorsEvidence check of this node rejected a block
 	outbox   []cs.ConsensusMessage
 	timer    *pendingTimer
 	timerGen int
@@ -63,6 +64,9 @@ type pendingTimer struct {
 type failTap struct{ n *Node }
 
 func (h failTap) Log(r *log.Record) error {
+	if strings.HasPrefix(r.Msg, "Evidence FaultVal") || strings.HasPrefix(r.Msg, "Evidence proposer error") || strings.HasPrefix(r.Msg, "Evidence round/height error") {
+		h.n.fveRejected = r.Msg + " " + fmt.Sprint(r.Ctx...)
+	}
 	if strings.Contains(r.Msg, "Error on ApplyBlock") {
 		h.n.killReq = true
 		h.n.failMsg = fmt.Sprint(r.Ctx...)
